@@ -1,7 +1,7 @@
 (* C10 — property theorems only. Source = C10.Src, regenerated from /repo on this run. *)
 From Coq Require Import Reals ZArith String List Bool Lra.
 Require Import Py.PyAst Py.PyVal Py.PySem Py.XLemmas Py.Interp.
-Require Import C10.Src C10.Model C10.RouteN.
+Require Import C10.Src C10.Model C10.RouteN C10.BinsN.
 Require C10.Wiring.
 Import ListNotations.
 Open Scope string_scope.
@@ -109,3 +109,16 @@ Example C10_routing_any_length_instance :
   map (value_of [(VStr "extra", VInt 0); (VStr "gamma_pl", VInt 2); (VStr "a_ani", VInt 1); (VStr "beta_inf", VInt 3)]) ["a_ani"; "beta_inf"; "gamma_pl"]
   = [VInt 1; VInt 3; VInt 2].
 Proof. reflexivity. Qed.
+
+(* ANY NUMBER OF KINEMATIC BINS (inductions over the constructor's loop over the grid list and over kin_scaling's loop over the per-bin
+   objects, BinsN.v): for one scaling axis (x0, x1, x2) and a list of per-bin grids of ANY length, the constructor builds one interpolant per
+   bin, in bin order, and kin_scaling returns for every bin - in bin order - the piecewise-linear interpolant of THAT bin's grid at the
+   parameter found by name (extra keys ignored); on a node it is that bin's grid value (C10_node_exact). *)
+Theorem C10_any_number_of_bins : forall (x0 x1 x2 : R) (gs : list (R * R * R)) (vx : val) (p : R) (w : world),
+  exists ks,
+  call G 80 (CClass "KinScaling" src_KinScaling_init) None (ctorC x0 x1 x2 gs) [] w = Ok (ks, w)
+  /\ call G 80 (CFun src_KinScaling_kin_scaling) (Some ks) [kwK vx p] [] w = Ok (VArr (map (scal x0 x1 x2 p) gs), w).
+Proof.
+  intros. exists (ks_obj x0 x1 x2 (map (bin_obj x0 x1 x2) gs)). split; [apply constructor_any_number_of_bins | apply kin_scaling_any_number_of_bins].
+Qed.
+Print Assumptions C10_any_number_of_bins.
